@@ -176,7 +176,10 @@ def main(tier: str, seed: int) -> int:
     canonical = {}
     progmap = dict(progs)
     with mp.get_context("spawn").Pool(int(os.environ.get("VT_NPROC", "16")), initializer=_sched_init) as pool:
-        bases = list(pool.imap_unordered(_sched_base, [(n, p, t) for n, p in progs for t in cfgs], chunksize=1))
+        order_names = {n for n, _ in ORDER_CORPUS}
+        sched_cfgs = [(n, p, t) for n, p in progs for t in cfgs
+                      if not quick or t == TRAITS or n in order_names]  # quick: default only for the order corpus
+        bases = list(pool.imap_unordered(_sched_base, sched_cfgs, chunksize=1))
         devs = []
         from vt.setsched import POLICIES
 
@@ -197,7 +200,7 @@ def main(tier: str, seed: int) -> int:
     # conformance: the rewritten package under the canonical policy behaves like the plain package
     conf_mismatch = 0
     with mp.get_context("fork").Pool(int(os.environ.get("VT_NPROC", "16")), initializer=_plain_init) as pool:
-        for name, traits, text in pool.imap_unordered(_plain_run, [(n, p, t) for n, p in progs for t in cfgs], chunksize=4):
+        for name, traits, text in pool.imap_unordered(_plain_run, sched_cfgs, chunksize=4):
             if canonical.get((name, tuple(traits))) != text:
                 conf_mismatch += 1
                 order_dependences.append({"name": name, "traits": traits, "deviation": "plain import vs canonical order",
@@ -250,8 +253,10 @@ def main(tier: str, seed: int) -> int:
     # 3. histories
     depth = 2 if quick else 3
     hists = [()]
+    related = [i for i, e in enumerate(HIST_ALPHABET) if e[0].startswith(("minmax", "anon"))]
     for d in range(1, depth + 1):
-        hists += list(product(range(len(HIST_ALPHABET)), repeat=d))
+        # quick: histories of length 2 only over the entries that share rules (other lines / other traits)
+        hists += list(product(range(len(HIST_ALPHABET)) if (d == 1 or not quick) else related, repeat=d))
     import ngo  # noqa: F401  (parent imports ngo, never calls optimize)
     import logging
 
